@@ -113,6 +113,30 @@ type ask struct {
 	Entries []entryAsk `json:"entries,omitempty"`
 	// NEntries > len(Entries): entry i is Entries[i%len(Entries)]
 	NEntries int `json:"nentries,omitempty"`
+	// live path only: explicit statement texts; prepared entries then use the id the scripted node hands out
+	Stmt       string   `json:"stmt,omitempty"`
+	EntryStmts []string `json:"entry_stmts,omitempty"`
+}
+
+func (a *ask) statement() string {
+	if a.Stmt != "" {
+		return a.Stmt
+	}
+	return statementVariant(a.Body)
+}
+
+func (a *ask) entryID(i int) []byte {
+	if a.EntryStmts != nil {
+		return preparedID(16)
+	}
+	return preparedID(2 + i%15)
+}
+
+func (a *ask) entryStmt(i int) string {
+	if a.EntryStmts != nil {
+		return a.EntryStmts[i]
+	}
+	return statementVariant(i % 3)
 }
 
 func (a *ask) key() [8]byte {
@@ -270,10 +294,10 @@ func (a *ask) toVerif() *gocql.VerifRequest {
 	case kRegister:
 		r.Events = registerVariants[a.Body%len(registerVariants)]
 	case kPrepare:
-		r.Statement = statementVariant(a.Body)
+		r.Statement = a.statement()
 		r.Keyspace = a.PrepKS
 	case kQuery:
-		r.Statement = statementVariant(a.Body)
+		r.Statement = a.statement()
 	case kExecute:
 		r.PreparedID = preparedID(a.IDLen)
 	}
@@ -299,9 +323,9 @@ func (a *ask) toVerif() *gocql.VerifRequest {
 		for i := range r.Entries {
 			e := a.Entries[i%len(a.Entries)]
 			if e.Prepared {
-				r.Entries[i].PreparedID = preparedID(2 + i%15)
+				r.Entries[i].PreparedID = a.entryID(i)
 			} else {
-				r.Entries[i].Statement = statementVariant(i % 3)
+				r.Entries[i].Statement = a.entryStmt(i)
 			}
 			ee := e
 			r.Entries[i].Values = buildVerifValues(e.Mode, e.NVals, func(j int) int {
@@ -462,7 +486,7 @@ func expect(a *ask) *expectation {
 		ev := registerVariants[a.Body%len(registerVariants)]
 		ex.msg = &frame.Register{Events: append([]string{}, ev...)}
 	case kPrepare:
-		m := &frame.Prepare{Statement: statementVariant(a.Body)}
+		m := &frame.Prepare{Statement: a.statement()}
 		if v >= 5 {
 			m.HasFlags = true
 		}
@@ -476,7 +500,7 @@ func expect(a *ask) *expectation {
 		}
 		ex.msg = m
 	case kQuery:
-		ex.msg = &frame.Query{Statement: statementVariant(a.Body), Params: expectParams(v, kQuery, &a.P, ex)}
+		ex.msg = &frame.Query{Statement: a.statement(), Params: expectParams(v, kQuery, &a.P, ex)}
 	case kExecute:
 		ex.msg = &frame.Execute{ID: preparedID(a.IDLen), Params: expectParams(v, kExecute, &a.P, ex)}
 	case kBatch:
@@ -485,9 +509,9 @@ func expect(a *ask) *expectation {
 			e := a.Entries[i%len(a.Entries)]
 			be := frame.BatchEntry{Prepared: e.Prepared}
 			if e.Prepared {
-				be.ID = preparedID(2 + i%15)
+				be.ID = a.entryID(i)
 			} else {
-				be.Statement = statementVariant(i % 3)
+				be.Statement = a.entryStmt(i)
 			}
 			ee, ii := e, i
 			vals, named := expectValues(v, e.Mode, e.NVals, func(j int) int {
@@ -799,21 +823,37 @@ func cmpMsg(got, exp interface{}, ex *expectation) (field, detail string) {
 // One evaluation.
 
 type outcome struct {
-	class   string // "frame", "error", "panic"
-	viol    string // violation key ("" = none)
-	detail  string
-	nontriv bool
+	class      string // "frame", "error", "panic"
+	viol       string // violation key ("" = none)
+	detail     string
+	nontriv    bool
 	compressed bool
 }
 
 var digits = strings.NewReplacer("0", "", "1", "", "2", "", "3", "", "4", "", "5", "", "6", "", "7", "", "8", "", "9", "")
 
+// errClass turns a reference-decoder error into a stable slug for finding keys.
 func errClass(err error) string {
-	s := digits.Replace(err.Error())
-	if len(s) > 80 {
-		s = s[:80]
+	s := err.Error()
+	switch {
+	case strings.Contains(s, "is not defined in protocol v"):
+		return "opcode-not-defined-in-version"
+	case strings.Contains(s, "trailing bytes"):
+		return "trailing-bytes"
+	case strings.Contains(s, "body too short"):
+		return "body-too-short"
+	case strings.Contains(s, "flags") && strings.Contains(s, "not defined"):
+		return "undefined-flag-bits"
+	case strings.Contains(s, "USE_BETA"):
+		return "v5-without-beta-flag"
 	}
-	return strings.Join(strings.Fields(s), "_")
+	s = digits.Replace(s)
+	if len(s) > 60 {
+		s = s[:60]
+	}
+	return strings.Join(strings.FieldsFunc(s, func(r rune) bool {
+		return !(r >= 'a' && r <= 'z' || r >= 'A' && r <= 'Z' || r == '_' || r == '-')
+	}), "-")
 }
 
 func evaluate(a *ask) outcome {
@@ -1112,10 +1152,10 @@ func generators(thorough bool) []generator {
 		pl       int
 	}
 	type dims struct {
-		cons                  []uint16 // 0xffff: cycle through all consistencies
-		pageSizes, pagings    []int
-		serials               []uint16
-		tss                   []int
+		cons               []uint16 // 0xffff: cycle through all consistencies
+		pageSizes, pagings []int
+		serials            []uint16
+		tss                []int
 	}
 	reduced := dims{[]uint16{0xffff}, []int{0, 5000}, []int{0, 1}, []uint16{0, 8}, []int{tsOff, tsFixed}}
 	full := dims{allCons, []int{0, 1, 5000, 2147483647}, []int{0, 1, 300}, []uint16{0, 8, 9}, []int{tsOff, tsFixed, tsNegative, tsNow}}
@@ -1133,7 +1173,7 @@ func generators(thorough bool) []generator {
 				}
 			}
 		}
-		plan = append(plan, s3{env{false, false, 0}, full}, s3{env{true, true, 2}, full})
+		plan = append(plan, s3{env{false, false, 0}, full}, s3{env{true, false, 1}, full}, s3{env{false, true, 2}, full}, s3{env{true, true, 2}, full})
 	}
 	shapes := valueShapes()
 	for v := 1; v <= 5; v++ {
@@ -1267,6 +1307,7 @@ type local struct {
 	inexpr      map[string]int64
 	compressed  int64
 	uncompWhenC int64
+	samples     []json.RawMessage // first non-trivial ask of every generator
 }
 
 func main() {
@@ -1304,6 +1345,7 @@ func main() {
 		go func() {
 			defer wg.Done()
 			for g := range work {
+				nt := 0
 				g(func(a *ask) {
 					a.KindStr = kindNames[a.Kind]
 					o := safeEvaluate(a)
@@ -1325,13 +1367,23 @@ func main() {
 						r.Infra("harness panic on %+v: %s", *a, o.detail)
 					} else if o.viol != "" {
 						r.Violation(o.viol, o.detail, a)
-					} else if o.class != "frame" {
-						ex := expect(a)
-						l.inexpr[o.class+":"+strings.Join(ex.inexpr, "+")]++
+					} else if ex := expect(a); len(ex.inexpr) == 1 {
+						// per inexpressible feature (asked alone): how the builder dealt with it
+						for _, f := range ex.inexpr {
+							l.inexpr[f+" -> "+map[string]string{"frame": "well-formed frame without it", "error": "error", "panic": "panic (nothing sent)"}[o.class]]++
+						}
 					}
-					if o.nontriv && r.NeedSample() && (l.evals%977 == 1) {
-						b, _ := json.Marshal(a)
-						r.Sample(json.RawMessage(b))
+					if o.nontriv {
+						// keep the 37th (else the first) non-trivial ask of every generator as sample candidate
+						nt++
+						if nt == 1 || nt == 37 {
+							b, _ := json.Marshal(a)
+							if nt == 1 {
+								l.samples = append(l.samples, json.RawMessage(b))
+							} else {
+								l.samples[len(l.samples)-1] = json.RawMessage(b)
+							}
+						}
 					}
 				})
 			}
@@ -1344,6 +1396,14 @@ func main() {
 	classes := map[string]int64{}
 	refused := map[string]int64{}
 	var compressed, uncomp int64
+	var samples []json.RawMessage
+	for _, l := range locals {
+		samples = append(samples, l.samples...)
+	}
+	sort.Slice(samples, func(i, j int) bool { return string(samples[i]) < string(samples[j]) })
+	for i := 0; i < report.MaxSamples && len(samples) > 0; i++ {
+		r.Sample(samples[(i*len(samples)/report.MaxSamples+i*7)%len(samples)])
+	}
 	for _, l := range locals {
 		r.AddCounts(l.evals, l.keys)
 		for v := 1; v <= 5; v++ {
@@ -1364,7 +1424,7 @@ func main() {
 	r.Extra("cases_per_version", perVersion)
 	r.Extra("cases_per_kind", perKind)
 	r.Extra("builder_outcomes", classes)
-	r.Extra("refusals_of_inexpressible_asks", sortedMap(refused))
+	r.Extra("inexpressible_feature_outcomes", sortedMap(refused))
 	r.Extra("frames_compressed_and_decompressed", compressed)
 	r.Extra("frames_left_uncompressed_with_compressor", uncomp)
 	r.Extra("builder_phase_seconds", time.Since(start).Seconds())
